@@ -1,1 +1,2 @@
 import ZxVerif.Props.C17
+import ZxVerif.Props.C15
